@@ -5,7 +5,7 @@ Input : [timeout, [stop instant, ...], broken, suppress, store, nObs, setUp, bod
   stage      = [[side, ...], beh]
   side       = ['junk', d] | 'logerr' | 'dropfailed' | 'flush' | 'expect'
   beh        = 'ret' | ['raise', k] | ['fire', d] | ['faild', d, k] | 'never'          k = err | fail | skip
-Trace : [events, stopRequested, raised, [[name, time, observers], ...], leftover, pending, obsRestored, realStops, finalTime]
+Trace : [events, stopRequested, raised, [[name, time, observers], ...], [live, ...], leftover, pending, obsRestored, realStops, finalTime]
 (see TTV/Drv/C14.lean).  The interrupts are `reactor.stop()` calls scheduled before `case.run(result)`.
 """
 import gc, itertools
@@ -145,7 +145,7 @@ class C14(Prop):
             m = (lambda i: (lambda event: None))(i)
             markers.append(m)
             pub.addObserver(m)
-        slog = []
+        slog, live = [], []
         counts = {'scheduled': 0, 'ran': 0}
         numbering = itertools.count()
 
@@ -165,6 +165,7 @@ class C14(Prop):
             cleanups, sides, beh = stage
             register(case, cleanups)
             slog.append([name, now(), len(pub._observers)])
+            live.append(bool(r.running))
             for s in sides:
                 if s == 'logerr':
                     log.err(ZeroDivisionError('logged'))
@@ -220,7 +221,7 @@ class C14(Prop):
             else:
                 raise
         gc.collect(1)
-        trace = [sink.ev, sink.stopped, raised, slog, counts['scheduled'] - counts['ran'], len(r.getDelayedCalls()),
+        trace = [sink.ev, sink.stopped, raised, slog, live, counts['scheduled'] - counts['ran'], len(r.getDelayedCalls()),
                  list(pub._observers) == markers, 0 if real else r.real_stops, now()]
         if real:
             for dc in r.getDelayedCalls():          # leave the process clean whatever happened
@@ -401,7 +402,7 @@ class C14(Prop):
             f.append('beh:' + (s[2] if isinstance(s[2], str) else s[2][0] + ('-' + s[2][-1] if s[2][0] in ('raise', 'faild') else '')))
             for side in s[1]:
                 f.append('side:' + (side if isinstance(side, str) else side[0]))
-        if not isinstance(trace, list) or len(trace) < 9 or trace[0] == 'raised':
+        if not isinstance(trace, list) or len(trace) < 10 or trace[0] == 'raised':
             return f + ['harness-raised']
         ev, stopped, raised, slog = trace[:4]
         f.append('outcome:' + '+'.join(e for e in ev if e not in ('startTest', 'stopTest')))
@@ -416,9 +417,11 @@ class C14(Prop):
                 f.append('stage-started-at-timeout')
             if any(s == last for s in stops):
                 f.append('stage-started-at-interrupt')
-        if trace[4]:
+        if not all(trace[4]):
+            f.append('stage-run-by-shake-out-iteration')
+        if trace[5]:
             f.append('leftover-calls')
-        if trace[8] == T and T > 0:
+        if trace[9] == T and T > 0:
             f.append('ended-at-timeout-instant')
         return f
 
